@@ -7,16 +7,17 @@ _model = ("ideal AEAD (INT-CTXT) for the cookie keys: encrypt writes nonce||plai
 PROP = dict(
     functions=[
         "ntp_proto::keyset::KeySet::{encode_cookie, decode_cookie}",
-        "ntp_proto::keyset::KeySetProvider::{rotate, get}",
+        "ntp_proto::keyset::KeySetProvider::{new, rotate, get}",
         "ntp_proto::keyset::DecodedServerCookie::plaintext",
         "ntp_proto::packet::crypto::{AesSivCmac256::try_from, AesSivCmac512::try_from, key_size, new, key_bytes}",
     ],
-    bounds="history h in 0..=3; up to 5 rotations from a one-key set with ARBITRARY u32 id offset (wrap-around included); issuing snapshot i and decoding "
-           "snapshot j both symbolic in 0..=5 (thorough) / straight-line life of one cookie over h+2 rotations (quick); all session key bytes, cookie key bytes, "
+    bounds="history h in 0..=3; up to 5 rotations from a one-key set with ARBITRARY u32 id offset (wrap-around included); h in 0..=2: issuing snapshot i and decoding "
+           "snapshot j both symbolic in 0..=5 (thorough); h in 0..=3: straight-line life of one cookie issued after 1 rotation, presented after each of the next h+1 rotations "
+           "and to the previous key set (h=1 quick, others thorough); all session key bytes, cookie key bytes, "
            "nonces and tags symbolic; both AEAD algorithms for the round trip; tampering: any single byte position inside the declared length XOR any non-zero mask, "
            "key set with two valid keys; unknown ids: all 2^32-2 ids outside a two-key window; unframed input: every byte string of length <= 40",
     outside="confidentiality of the cookie contents (not expressible; the AES-SIV primitive itself, crate aes-siv, is not analysed); multi-byte modifications "
-            "(follow from the model the same way but are not enumerated); h > 3 and more than 5 rotations; history = usize::MAX (history + 1 overflows: dev-profile panic, release wraps harmlessly); "
+            "(follow from the model the same way but are not enumerated); h > 3 and more than 5 rotations; fully symbolic (i, j) for h = 3 (c26_rotate_h3 exists in c26.rs but is not registered: 543 s symex, > 6 GB in the solver); history = usize::MAX (history + 1 overflows: dev-profile panic, release wraps harmlessly); "
             "bytes after the declared length are ignored by decode_cookie by design (test can_decode_cookie_with_padding); CipherProvider::get (more than one cookie field) belongs to C19",
     assumptions=[
         "freshly generated cookie keys are pairwise different (they differ in their first 8 bytes) - used by the tamper/foreign-key/rotation harnesses",
@@ -32,22 +33,22 @@ PROP = dict(
         "Cargo.toml of the harness crate: no-assertion-reach-checks (JSON traces of reach checks exhaust memory), cbmc --max-field-sensitivity-array-size 200",
     ],
     harnesses=[
-        H(KS, "c26", "c26_roundtrip_256", "decode(encode(x)) == x, AES-SIV-CMAC-256 session keys, arbitrary id offset (real try_from)", timeout=300),
-        H(KS, "c26", "c26_tamper", "any one-byte modification inside the declared length is rejected (256 cookie, two valid keys)", timeout=300),
-        H(KS, "c26", "c26_unknown_id", "a cookie with any key id outside the window is rejected without trying a key", timeout=300),
-        H(KS, "c26", "c26_foreign_key", "a cookie made with other key material under the same id is rejected", timeout=300),
-        H(KS, "c26", "c26_short", "every input of <= 40 bytes is rejected without panic", timeout=300),
-        H(KS, "c26", "c26_window_h1", "h=1: cookie issued after 1 rotation decodes for 1 more rotation, rejected after 2; newest key used; id = offset+i", timeout=300),
-        H(KS, "c26", "c26_key_try_from_256", "AesSivCmac256::try_from == specification for all lengths <= 40", timeout=300),
+        H(KS, "c26", "c26_roundtrip_256", "decode(encode(x)) == x, AES-SIV-CMAC-256 session keys, arbitrary id offset (real try_from)", timeout=600),
+        H(KS, "c26", "c26_tamper", "any one-byte modification inside the declared length is rejected (256 cookie, two valid keys)", timeout=600),
+        H(KS, "c26", "c26_unknown_id", "a cookie with any key id outside the window is rejected without trying a key", timeout=600),
+        H(KS, "c26", "c26_foreign_key", "a cookie made with other key material under the same id is rejected", timeout=600),
+        H(KS, "c26", "c26_short", "every input of <= 40 bytes is rejected without panic", timeout=600),
+        H(KS, "c26", "c26_new", "KeySetProvider::new(h): one fresh key, id offset 0, primary 0, any history", timeout=600),
+        H(KS, "c26", "c26_window_h1", "h=1: cookie issued after 1 rotation decodes for 1 more rotation, rejected after 2; newest key used; id = offset+i", timeout=600),
+        H(KS, "c26", "c26_key_try_from_256", "AesSivCmac256::try_from == specification for all lengths <= 40", timeout=600),
         H(KS, "c26", "c26_roundtrip_512", "decode(encode(x)) == x, AES-SIV-CMAC-512 session keys", tier="thorough"),
         H(KS, "c26", "c26_tamper_512", "one-byte tampering rejected (512 cookie)", tier="thorough"),
         H(KS, "c26", "c26_key_try_from_512", "AesSivCmac512::try_from == specification for all slice lengths <= 72 and for [u8; 64]", tier="thorough"),
         H(KS, "c26", "c26_window_h0", "h=0 straight-line window", tier="thorough"),
         H(KS, "c26", "c26_window_h2", "h=2 straight-line window", tier="thorough"),
-        H(KS, "c26", "c26_window_h3", "h=3 straight-line window, cookie issued after 2 rotations", tier="thorough"),
+        H(KS, "c26", "c26_window_h3", "h=3 straight-line window (5 rotations)", tier="thorough"),
         H(KS, "c26", "c26_rotate_h0", "h=0, 5 rotations, symbolic issue/decode snapshots: decodes iff i <= j <= i+h", tier="thorough"),
         H(KS, "c26", "c26_rotate_h1", "h=1, 5 rotations, symbolic issue/decode snapshots", tier="thorough"),
         H(KS, "c26", "c26_rotate_h2", "h=2, 5 rotations, symbolic issue/decode snapshots", tier="thorough"),
-        H(KS, "c26", "c26_rotate_h3", "h=3, 5 rotations, symbolic issue/decode snapshots", tier="thorough"),
     ],
 )
